@@ -460,11 +460,10 @@ impl<P: RuntimeProvider + Send + Sync> ZoneHandler for InMemoryZoneHandler<P> {
             (Some(chain), _) => LookupRecords::many(lookup_options, chain),
             (None, Some(rr_set)) => LookupRecords::new(lookup_options, rr_set),
             (None, None) => {
+                // no data if the name exists, or else if its source of synthesis exists
                 return Continue(Err(
-                    if inner
-                        .records
-                        .keys()
-                        .any(|key| key.name() == name || name.zone_of(key.name()))
+                    if inner.name_exists(name)
+                        || inner.name_exists(&inner.source_of_synthesis(name))
                     {
                         LookupError::NameExists
                     } else {
